@@ -386,6 +386,22 @@ func leavesOf(v ssa.Value, stop ...ssa.Value) []ssa.Value {
 			for _, e := range y.Edges {
 				rec(e)
 			}
+		case *ssa.TypeAssert:
+			rec(y.X)
+		case *ssa.Alloc:
+			// a spilled local: whatever was stored into it (whole-object stores only)
+			n := 0
+			if y.Referrers() != nil {
+				for _, r := range *y.Referrers() {
+					if st, ok := r.(*ssa.Store); ok && st.Addr == y {
+						n++
+						rec(st.Val)
+					}
+				}
+			}
+			if n == 0 {
+				out = append(out, x)
+			}
 		default:
 			out = append(out, x)
 		}
@@ -645,7 +661,7 @@ func checkDecision(p *Prog, r *Report, al *authLoop, forbidWeb, permitWeb any) {
 		if !ok || len(ret.Results) < 1 {
 			continue
 		}
-		dv := ret.Results[0]
+		dv := retVal(ret, 0)
 		if !typeIs(dv.Type(), pTypes, "Decision") {
 			continue
 		}
